@@ -1,16 +1,45 @@
 /-
 C01 — every generated tree is a derivation of the spec's grammar.
 
-Property theorems only; helper lemmas are in `Proofs/Fuzz.lean` and `Proofs/IR.lean`.  The models
+Property theorems only; helper lemmas are in `Proofs/Fuzz.lean`, `Proofs/IR.lean`, `Proofs/Prime.lean`,
+`Proofs/PrimeGrammar.lean`, `Proofs/FuzzTerm.lean`, `Proofs/FuzzTermNeg.lean`, `Proofs/Evo.lean`.  The models
 (`Model/IR.lean`: `Matches`, `Valid`, the checker `validB`; `Model/Fuzz.lean`: `expand` = `Node.fuzz`,
-`replM` = `replace_multiple`, …) are tied to /repo by `harness/props/c01.py` (tape replay of
-`Grammar.fuzz`, operator-level correspondence, and every real tree judged by `validB`).
+`replM` = `replace_multiple`, …; `Model/Prime.lean`: `primeLoop` = `Grammar.prime()`; `Model/FuzzT.lean`:
+`expandF` = `expand` with "out of fuel" told apart from "not a run"; `Model/Evo.lean`: `crossover`, `mutate`,
+`fixIndividual`) are tied to /repo by `harness/props/c01.py` (tape replay of `Grammar.fuzz`, operator-level
+correspondence incl. the evolution-level operators, node-by-node comparison of `distance_to_completion` after
+every real `prime()`, and every real tree judged by `validFast`).
 Every `theorem` in this file is an obligation that the check audits with `#print axioms`.
 
+What is proved, section by section.
+ 1–6  (as before) partial correctness of `expand` for every recursion bound, budget and tape; `replace_multiple`,
+      whole-iteration repair, all operator sequences (`Reachable`), words of the language, the checker.
+ 7    `Grammar.prime()`, modelled line by line (worklist, update rule per node class, loop until empty; the
+      values the constructors leave: terminals 1, `Star`/`Option` 0, else inf):
+      * `C01_prime_terminates` — it returns within n(n+1)/2 loop iterations when every node is completable;
+      * `C01_prime_returns_iff_completable` — and ONLY then: one node that cannot be completed (an unproductive
+        symbol, even below `*`/`?` or unused) keeps the real loop spinning for ever
+        (`C01_prime_hangs_on_unproductive_symbol`; finding /var/tmp/fixes/C01-prime-hangs-on-unproductive);
+      * `C01_prime_values_by_update_rule` — every value it leaves is the update rule applied to an earlier look
+        at the final state.  The requested "`C01_prime_is_least_fixpoint`" is FALSE of the code: the result is
+        not even a fixpoint of the update rule and depends on the worklist order (`C01_prime_not_fixpoint`);
+      * `C01_prime_wellDist` — what budgeted expansion needs of the distances (`WellDist`) does hold.
+ 8    termination of budgeted expansion, for primed (`primedB`) generator-free grammars:
+      * `C01_expand_terminates_exhausted` — once the budget is exhausted (`max_nodes ≤ 1`) `Node.fuzz` returns
+        for ALL tapes within `G.depthBound` levels, a function of the grammar alone (minimum-distance
+        alternatives, `min` iterations; each step decreases `Term.mu`);
+      * `C01_expand_terminates_partial` — for every budget the depth is at most (draws + 1) · depthBound.
+        GAP to the full statement (`C01_expand_terminates_statement`: a bound in terms of grammar, `max_nodes`
+        and caps for all tapes): it is FALSE of the code, `C01_expand_terminates_false` /
+        `C01_expand_no_budget_bound` — `Repetition.fuzz` hands iterations beyond `min` more budget than it has
+        (finding /var/tmp/fixes/C01-fuzz-budget-inflation).  Generators (`G.gens ≠ []`) are not covered.
+ 9    `SimpleSubtreeCrossover.crossover`, `SimpleMutation.mutate`, `PopulationManager.fix_individual` (with
+      `Nop/ApplyAll/ApplyFirst/RepetitionBoundsSuggestion`, parser-based suggestions as given pairs) line by
+      line: `C01_crossover_valid`, `C01_mutate_valid`, `C01_fix_valid`.  `C01_fix_valid` assumes each leaf
+      suggestion sound (`Evo.SuggOk`): that a repetition edit keeps the parent's rule matched is section 3's
+      business (whole iterations, count within bounds) and is not re-derived from the origin tags.
+
 Scope notes.
-* `expand` is proved *partially* correct — for every recursion bound, budget and tape, IF it returns a
-  forest then the forest is a derivation.  Termination of budgeted expansion is not part of C01's
-  statement and is NOT proved (`expand` returns `none` when its bound is hit).
 * The gmutator branches (`terminal_should_repeat`, `plus_should_return_nothing`,
   `option_should_return_multiple`, `alternatives_should_concatenate`, `invert_regex`,
   `non_terminal_use_other_rule`) are 0.0 by default, deliberately leave the grammar and are excluded.
@@ -21,6 +50,8 @@ Scope notes.
   is accepted by `R` and each generator result is a derivation (what `Grammar.generate` gets from the
   parser: parser soundness is C04).
 * Computed repetition counts (`{expr}`) are constraints (C02); here only the static bounds.
+* `prime()` is modelled from the constructor state (`primeFresh`) for the theorems; the driver also runs it
+  from arbitrary states (a second `prime()` starts from whatever the objects carry) for the correspondence.
 -/
 import Proofs.Fuzz
 import Proofs.IRFast
@@ -389,6 +420,13 @@ example : Reachable exG exR [ATree.ofTree exTree] :=
 
 /-! ## 7. `Grammar.prime()`: the distances budgeted expansion steers by -/
 
+/-- the statement asked for: "the computed values are the least fixpoint of the update rule".
+    `ruleVal (kindAt G) s p = s p` at every non-terminal node would be the fixpoint part; it fails on `exP`
+    (`C01_prime_not_fixpoint`), so what is proved instead is `C01_prime_values_by_update_rule`. -/
+def C01_prime_is_fixpoint_statement : Prop :=
+  ∀ (G : Grammar) (fuel : Nat) (s : Pos → Dist), G.repWF = true → primeFresh G fuel = .done s →
+    ∀ p, kindAt G p ≠ .term → ruleVal (kindAt G) s p = s p
+
 /-- **`prime()` returns, after at most `n (n+1) / 2` iterations of its `while` loop** (`n` = number of
     non-terminal grammar nodes), when every node is completable (`Prime.Comp`: a terminal; a symbol whose
     rule is available; an alternative with an available branch; a concatenation / repetition whose parts
@@ -455,6 +493,12 @@ theorem C01_prime_not_fixpoint :
     doneState (primeFresh exP 10) (0, []) = some 1 ∧ doneState (primeFresh exP 10) (1, []) = some 1 ∧
     ruleVal (kindAt exP) (doneState (primeFresh exP 10)) (0, []) = some 2 := by
   refine ⟨by rfl, by rfl, by rfl, by rfl⟩
+
+theorem C01_prime_is_fixpoint_false : ¬ C01_prime_is_fixpoint_statement := by
+  intro h
+  have := h exP 10 _ (by rfl) C01_prime_not_fixpoint.1 (0, []) (by rw [show kindAt exP (0, []) = .nt (some (1, [])) from rfl]; simp)
+  rw [C01_prime_not_fixpoint.2.2.2, C01_prime_not_fixpoint.2.1] at this
+  cases this
 
 /-- `<start> ::= "a" <b>*` ; `<b> ::= <b> "x"` — the language is `{"a"}`, `<start>` is productive -/
 def exH : Grammar :=
